@@ -239,7 +239,9 @@ Proof.
         eapply (SQ_trans _ s1); [eapply (SQ_ext _ _ [_]); [reflexivity | reflexivity | apply nojr_same; reflexivity | reflexivity]|] end.
       apply SQ_core0; [eapply on_retract_response_same; exact H | | eapply on_retract_response_RK; exact H].
       unfold on_retract_response in H. destruct (retract_response_states _ w ids []) as [c' groups].
-      rewrite (send_redirected_snd _ _ _ H). reflexivity.
+      apply bind_ok in H. destruct H as (s2 & H & H2).
+      assert (Es : snd (s', outs) = snd s2) by (destruct (retract_wakes _ _ _ _); inversion H2; subst; reflexivity).
+      rewrite Es, (send_redirected_snd _ _ _ H). reflexivity.
   - destruct (c_flag (s_core s)); [|discriminate].
     apply SQ_core0; [eapply run_scheduling_same; exact H | eapply run_scheduling_snd; exact H | eapply run_scheduling_RK; exact H].
   - destruct (find_proc _ w) as [p|]; [|discriminate]. inv_binds H. inversion H; subst.
